@@ -35,10 +35,12 @@ func randFile(r *rng) repository.Hash { return repository.Hash(randHexId(r, 40))
 
 // fileSource produces the hash of an attached file. The default invents hashes (fine for
 // in-memory compilation); scenarios that push or fsck set it to store a real blob.
-var fileSource = randFile
+// When nil, operations get no attachments: a hash that is not a stored blob makes go-git's push
+// fail and then hang forever in Close (its error path never closes the server's stdin).
+var fileSource func(r *rng) repository.Hash
 
 func randFiles(r *rng) []repository.Hash {
-	if !r.chance(1, 3) {
+	if fileSource == nil || !r.chance(1, 3) {
 		return nil
 	}
 	n := r.rangeInt(1, 3)
